@@ -576,3 +576,130 @@ Qed.
 
 Theorem fquantisation_count t f x c fr : gq (o_img (fpipeline t f x c fr)) = trips f.
 Proof. apply quantisation_count. Qed.
+
+(* ------------------------------------------------------------------ *)
+(* (7) round 6: max_height and max_width are resolved PER DIMENSION, by every framework.
+   `resolve_max` is applied to (config height, argument height) and, separately, to (config width,
+   argument width): with exactly ONE of the two config values set, the set one is used and the
+   other dimension falls back to the max_hw argument.  `joint_max` is the all-or-nothing rule
+   ("the config pair only when BOTH are set, else max_hw") — NOT what any framework does; it is
+   defined only to state that the two rules differ exactly on the mixed configurations. *)
+
+Lemma resolve_max_table : forall v a, resolve_max (Some v) a = Some v /\ resolve_max None a = a.
+Proof. intros; split; reflexivity. Qed.
+
+(* the chunk functions: unconditionally; the dataset classes: on the repaired tree (x_fx180) *)
+Lemma str_bounds_per_dimension : forall x c,
+  c_maxh (fw_cfg Str x c) = resolve_max (x_cfgh x) (x_argh x) /\
+  c_maxw (fw_cfg Str x c) = resolve_max (x_cfgw x) (x_argw x).
+Proof. intros; split; reflexivity. Qed.
+
+Lemma fw_bounds_per_dimension : forall f x c, x_fx180 x = true ->
+  c_maxh (fw_cfg f x c) = resolve_max (x_cfgh x) (x_argh x) /\
+  c_maxw (fw_cfg f x c) = resolve_max (x_cfgw x) (x_argw x).
+Proof.
+  intros f x c H; destruct f; unfold fw_cfg, set_max, ds_maxh, ds_maxw, st_maxh, st_maxw; rewrite ?H;
+    cbn [c_maxh c_maxw]; split; reflexivity.
+Qed.
+
+(* all 16 combinations (each of the four sources None / Some): every framework hands the same two
+   bounds to apply_sizematcher *)
+Lemma fw_bounds_same : forall f1 f2 x c, x_fx180 x = true ->
+  c_maxh (fw_cfg f1 x c) = c_maxh (fw_cfg f2 x c) /\ c_maxw (fw_cfg f1 x c) = c_maxw (fw_cfg f2 x c).
+Proof.
+  intros f1 f2 x c H.
+  destruct (fw_bounds_per_dimension f1 x c H) as [A B], (fw_bounds_per_dimension f2 x c H) as [C D].
+  rewrite A, B, C, D; split; reflexivity.
+Qed.
+
+(* the height bound does not look at the width's sources, and vice versa *)
+Lemma fw_bound_ignores_other_dimension : forall f x x' c c',
+  x_fx180 x = true -> x_fx180 x' = true ->
+  (x_cfgh x = x_cfgh x' -> x_argh x = x_argh x' -> c_maxh (fw_cfg f x c) = c_maxh (fw_cfg f x' c')) /\
+  (x_cfgw x = x_cfgw x' -> x_argw x = x_argw x' -> c_maxw (fw_cfg f x c) = c_maxw (fw_cfg f x' c')).
+Proof.
+  intros f x x' c c' H H'.
+  destruct (fw_bounds_per_dimension f x c H) as [A B], (fw_bounds_per_dimension f x' c' H') as [C D].
+  rewrite A, B, C, D; split; intros E1 E2; rewrite E1, E2; reflexivity.
+Qed.
+
+Definition joint_max (x : maxsrc) : option Z * option Z :=
+  match x_cfgh x, x_cfgw x with
+  | Some h, Some w => (Some h, Some w)
+  | _, _ => (x_argh x, x_argw x)
+  end.
+
+(* the all-or-nothing rule coincides with the per-dimension rule exactly when both config values
+   are set, or none is, or the only one that is set repeats the argument *)
+Lemma joint_max_agrees_iff : forall x,
+  joint_max x = (st_maxh x, st_maxw x) <->
+  ((x_cfgh x = None <-> x_cfgw x = None) \/
+   (x_cfgw x = None /\ x_cfgh x = x_argh x) \/
+   (x_cfgh x = None /\ x_cfgw x = x_argw x)).
+Proof.
+  intros [[h|] [w|] ah aw b1 b2]; unfold joint_max, st_maxh, st_maxw, resolve_max;
+    cbn [x_cfgh x_cfgw x_argh x_argw]; split; intros H.
+  - left; split; intros E; discriminate E.
+  - reflexivity.
+  - right; left; split; [reflexivity | congruence].
+  - destruct H as [[_ H]|[[_ E]|[E _]]];
+      [specialize (H eq_refl); discriminate H | rewrite <- E; reflexivity | discriminate E].
+  - right; right; split; [reflexivity | congruence].
+  - destruct H as [[H _]|[[E _]|[_ E]]];
+      [specialize (H eq_refl); discriminate H | discriminate E | rewrite <- E; reflexivity].
+  - left; tauto.
+  - reflexivity.
+Qed.
+
+(* exactly ONE config value set: 64x64 frame, argument (labels' maximum) 64x64.
+   max_height = 128, max_width = None: every framework pads to 128x64 (keypoints unchanged);
+   the all-or-nothing rule would keep 64x64.
+   max_height = None, max_width = 32: every framework scales by 1/2 and pads to 64x32 (keypoints halved);
+   the all-or-nothing rule would keep 64x64 and the keypoints. *)
+Definition wxm (ch cw : option Z) : maxsrc :=
+  {| x_cfgh := ch; x_cfgw := cw; x_argh := Some 64%Z; x_argw := Some 64%Z; x_fx180 := true; x_fx181 := true |}.
+Definition osize (o : out) : Z * Z := (gh (o_img o), gw (o_img o)).
+
+Lemma mixed_bounds_witness :
+  let fr := wframe64 [[Some (20, 30); Some (40, 44)]] 1%nat in
+  let xa := wxm (Some 128%Z) None in
+  let xb := wxm None (Some 32%Z) in
+  (forall f, osize (fpipeline Single f xa wcfg0 fr) = (128%Z, 64%Z) /\
+             o_pts (fpipeline Single f xa wcfg0 fr) = [[Some (20, 30); Some (40, 44)]]) /\
+  (forall f, osize (fpipeline Single f xb wcfg0 fr) = (64%Z, 32%Z) /\
+             o_pts (fpipeline Single f xb wcfg0 fr) = [[Some (10, 15); Some (20, 22)]]) /\
+  joint_max xa = (Some 64%Z, Some 64%Z) /\ joint_max xb = (Some 64%Z, Some 64%Z) /\
+  (forall f x, x = xa \/ x = xb ->
+     osize (pipeline Single f (set_max wcfg0 (fst (joint_max x)) (snd (joint_max x))) fr) = (64%Z, 64%Z) /\
+     o_pts (pipeline Single f (set_max wcfg0 (fst (joint_max x)) (snd (joint_max x))) fr) = [[Some (20, 30); Some (40, 44)]]) /\
+  (forall t, t = Single \/ t = BottomUp \/ t = Centroid \/ t = Centered 0 ->
+     forall x, x = xa \/ x = xb ->
+     agree_domain t wcfg0 fr /\
+     (forall f1 f2, agree t (fpipeline t f1 x wcfg0 fr) (fpipeline t f2 x wcfg0 fr))) /\
+  (* a chunk function with the all-or-nothing rule would NOT agree with the datasets (padding only: the
+     centered crop is the same, the three full-image types differ; down-scaling: all four differ) *)
+  (forall t, t = Single \/ t = BottomUp \/ t = Centroid ->
+     ~ agree t (fpipeline t Mem xa wcfg0 fr)
+               (pipeline t Str (set_max wcfg0 (fst (joint_max xa)) (snd (joint_max xa))) fr)) /\
+  (forall t, t = Single \/ t = BottomUp \/ t = Centroid \/ t = Centered 0 ->
+     ~ agree t (fpipeline t Mem xb wcfg0 fr)
+               (pipeline t Str (set_max wcfg0 (fst (joint_max xb)) (snd (joint_max xb))) fr)).
+Proof.
+  cbv zeta.
+  split; [intros f; destruct f; split; vm_compute; reflexivity|].
+  split; [intros f; destruct f; split; vm_compute; reflexivity|].
+  split; [reflexivity|]. split; [reflexivity|].
+  split; [intros f x [->| ->]; destruct f; split; vm_compute; reflexivity|].
+  split.
+  { intros t Ht x Hx.
+    assert (D : agree_domain t wcfg0 (wframe64 [[Some (20, 30); Some (40, 44)]] 1%nat)).
+    { destruct Ht as [->|[->|[->| ->]]]; (split; [reflexivity|]); try exact I.
+      split; [reflexivity|]. vm_compute. apply le_n. }
+    split; [exact D|].
+    apply fframeworks_agree_repaired; [destruct Hx as [->| ->]; reflexivity ..|exact D]. }
+  split.
+  - intros t [->|[->| ->]]; cbn [agree]; unfold same_sample, same_sample_centroid;
+      intros H; vm_compute in H; decompose [and] H; discriminate.
+  - intros t [->|[->|[->| ->]]]; cbn [agree]; unfold same_sample, same_sample_centroid;
+      intros H; vm_compute in H; decompose [and] H; discriminate.
+Qed.
